@@ -233,7 +233,7 @@ def run(chk):
     os.makedirs(work, exist_ok=True)
     for i in range(n):
         scenario(chk, rng, work, i)
-        if len(chk.violations) >= 3:
+        if chk.n_found() >= 3:
             break
     # independence of a copy under the full container engine: mutate the copy, then the original
     from basictdf import Tdf
